@@ -28,11 +28,6 @@ func Typecheck(processes []*Process, assumedFreeNames []Name, globalEnv *GlobalE
 }
 
 func typecheckFunctionsAndProcesses(processes []*Process, assumedFreeNames []Name, globalEnv *GlobalEnvironment, errorChan chan error, doneChan chan bool) {
-	defer func() {
-		// No error found, notify parent
-		doneChan <- true
-	}()
-
 	assignTypesToProcessProviders(processes)
 
 	// Start with some preliminary check on the labelled types
@@ -74,6 +69,9 @@ func typecheckFunctionsAndProcesses(processes []*Process, assumedFreeNames []Nam
 	}
 
 	globalEnv.log(LOGRULEDETAILS, "Process declarations typecheck ok")
+
+	// No error found, notify parent
+	doneChan <- true
 }
 
 // Sets a common type to all provider names
